@@ -156,7 +156,9 @@ namespace Book
 
 /-- what the listeners do during one rule application (`i` the target branch, `old` its state before,
     `r` its record, `new` its state after, `t'` the branches after; `AdzHelper._apply`:
-    children are created as copies of the target *before* it is extended) -/
+    children are created as copies of the target *before* it is extended).
+    `opens.remove(branch)` of the linqset removes the one entry of the branch (entries are unique);
+    written as a filter here; `Book.step` answers `raises "MissingValue"` when there is no entry. -/
 def record (bk : Book) (s : Step) (i : Nat) (old : Branch) (r : BRec) (new : Branch) (t' : Tableau) : Book :=
   let cur := bk.currentStep
   let n := bk.tab.length
@@ -418,6 +420,21 @@ def Tree.leafPathsL : List Tree → List (Option Nat × List NObj)
   | [] => []
   | c :: cs => c.leafPaths ++ Tree.leafPathsL cs
 end
+
+mutual
+/-- every node of every structure with the position it has on the branches: (position, identity);
+    `off` = position of the structure's first node -/
+def Tree.placed : Nat → Tree → List (Nat × Nat)
+  | off, .mk i kids => i.nodes.mapIdx (fun p o => (off + p, o.orig)) ++ Tree.placedL (off + i.nodes.length) kids
+def Tree.placedL : Nat → List Tree → List (Nat × Nat)
+  | _, [] => []
+  | off, c :: cs => c.placed off ++ Tree.placedL off cs
+end
+
+/-- the node objects on the branches, as (position, identity), with repetitions (a node shared by
+    several branches occurs once per branch) -/
+def Book.objIds (bk : Book) : List (Nat × Nat) :=
+  bk.recs.flatMap (fun r => r.objs.mapIdx (fun p o => (p, o.orig)))
 
 mutual
 /-- every structure's counters are the recomputed ones, depths count ancestors, left/right are the
